@@ -41,4 +41,40 @@ REGISTRY = {
     "C09": {"props_file": "Props/C09.v", "gen": ["sql_tables"], "harness": STORAGE_HARNESS, "trusted_base": STORAGE_TRUST, "assumptions": STORAGE_ASSUME},
     "C10": {"props_file": "Props/C10.v", "gen": ["sql_tables"], "harness": STORAGE_HARNESS, "trusted_base": STORAGE_TRUST, "assumptions": STORAGE_ASSUME},
     "C18": {"props_file": "Props/C18.v", "gen": ["sql_tables"], "harness": STORAGE_HARNESS, "trusted_base": STORAGE_TRUST, "assumptions": STORAGE_ASSUME},
+    "C13": {
+        "props_file": "Props/C13.v",
+        "gen": ["keyring_prog"],
+        "harness": [
+            {"bin": "enc_diff", "model": True,
+             "quick": ["--runs", "20", "--big", "200000", "--n", "3"],
+             "thorough": ["--runs", "500", "--big", "900000", "--n", "12"]},
+        ],
+        "trusted_base": [
+            "translator tools/translate/keyring_prog.py (call order inside get_or_create_db_key, arms of MdkSqliteStorage::new, mode constants)",
+            "harness probes: file state classified by header + an independent rusqlite/SQLCipher connection on a copy of the files; in-memory keyring store implementing keyring-core's CredentialStoreApi that records every set_secret",
+            "modelled, not verified: SQLCipher (that pages, journal and temp files hold only ciphertext is OBSERVED by the canary scan, not proved); SQLite locking; OS file-mode semantics (chmod/umask/O_EXCL); keyring-core stores other than the in-memory one; std::sync::Mutex as an atomic lock",
+        ],
+        "assumptions": [
+            "one process (the generation lock is process-wide; cross-process coordination is documented as out of scope by the crate)",
+            "EncryptionConfig::generate never returns the same key twice (fresh-key counter in the model)",
+            "keyring get/set are atomic and never fail (failure paths of the credential store are not modelled)",
+        ],
+    },
+    "C19": {
+        "props_file": "Props/C19.v",
+        "gen": ["lock_table"],
+        "harness": [
+            {"bin": "conc_stress", "model": True, "quick": ["--runs", "40"], "thorough": ["--runs", "1500"]},
+        ],
+        "trusted_base": [
+            "translator tools/translate/lock_table.py (regex + brace matching on rustfmt source: self.inner.read/write, self.group_snapshots.read/write, self.connection.lock, self.with_connection; sibling self-calls spliced in; hold extent from let-binding / statement / closure scope; assumes no callee returns a guard)",
+            "reduction of lock-protected critical sections to atomic steps (standard; not proved here); parking_lot RwLock, std::sync::Mutex and SQLite's own locking are outside the model and only exercised by conc_stress",
+            "key/value abstraction of the store in Conc/Sections.v (group record, relay set, messages, snapshots); its section lists are tied to the generated table by C19_kv_model_matches_shapes + C19_current_table_matches_model",
+            "conc_stress is an oracle-only harness (no model comparison): actual interleavings are sampled, not enumerated",
+        ],
+        "assumptions": [
+            "SQLite: stored snapshots always contain the group's row (FK group_state_snapshots.group_id -> groups), hence no trait method ever deletes a group row (hypothesis snaps_have_group of C19_sqlite_linearizable)",
+            "memory: linearizability is proved for programs without create_group_snapshot / rollback_group_to_snapshot (class memory-snapshot-two-locks); those two and save_message-vs-rollback are refuted with two-thread witnesses",
+        ],
+    },
 }
